@@ -140,6 +140,7 @@ func run(c *props.Ctx) {
 	c.R.Floor("IDX-2", 6)
 	c.R.Floor("IDX-3", 20)
 	remapAndFill(c, fns)
+	generators(c)
 	nf := mc.ReportFamilies(c, fns, bad)
 	c.R.Extra["family_rebuilding_functions"] = nf
 	c.R.Floor("FAM-1", 5)
@@ -208,4 +209,36 @@ func remapAndFill(c *props.Ctx, fns []*ssa.Function) {
 			c.R.Violate(s.Rule, construct, p.Pos(ssau.PosOf(s.At)), s.Detail)
 		}
 	}
+}
+
+// generators: GEN-LEN / GEN-3 over the geometry generators the property anchors.
+func generators(c *props.Ctx) {
+	p := c.P
+	// TriangleTopology must be the zero value of modeling.Topology for GEN-3's NewMesh(0, …) reading
+	if mp := p.Pkg("modeling"); mp != nil {
+		if o, ok := mp.Types.Scope().Lookup("TriangleTopology").(*types.Const); !ok || o.Val().ExactString() != "0" {
+			c.R.Note("modeling.TriangleTopology is not the constant 0: GEN-3 skips NewMesh call sites")
+		}
+	}
+	fns := mc.ScopeFuncs(c, "modeling/primitives", "modeling/extrude", "modeling/repeat", "modeling/triangulation", "modeling/marching")
+	per := map[string]int{}
+	for _, g := range eng.Generators(fns, mc.ModelingPath) {
+		if p.IsControl(g.Fn.Pos()) {
+			continue
+		}
+		k := p.FuncName(g.Fn) + "→" + g.Rule + ":" + g.Key
+		per[k]++
+		construct := fmt.Sprintf("%s#%d", k, per[k])
+		pos := p.Pos(g.Fn.Pos())
+		if g.At != nil {
+			pos = p.Pos(ssau.PosOf(g.At))
+		}
+		if g.OK {
+			c.R.Hold(g.Rule, construct, pos, g.Detail)
+		} else {
+			c.R.Violate(g.Rule, construct, pos, g.Detail)
+		}
+	}
+	c.R.Floor("GEN-3", 10)
+	c.R.Floor("GEN-LEN", 3)
 }
